@@ -612,7 +612,7 @@ fn run_pairs(rep: &mut Report, pairs: &[Pair], tag: &str) {
                 rep.count("glob.parse.ok");
                 match real_match(gl, &pr.path) {
                     Ok((m, s)) => {
-                        rep.count(if m { "glob.match" } else { "glob.nomatch" });
+                        rep.count(if m { "glob.x.match" } else { "glob.x.nomatch" });
                         format!("ok {}{}", bit(m), bit(s))
                     }
                     Err(_) => "panic".to_string(),
@@ -682,7 +682,7 @@ fn pair_requests(pr: &Pair) -> (Vec<String>, Vec<String>) {
 }
 
 fn ast_stream(rep: &mut Report, rng: &mut Rng) {
-    let n = rep.budget(2_500, 10);
+    let n = rep.budget(8_000, 10);
     let mut stats = BTreeMap::new();
     let mut pairs = vec![];
     for _ in 0..n {
@@ -709,7 +709,7 @@ fn ast_stream(rep: &mut Report, rng: &mut Rng) {
 }
 
 fn raw_stream(rep: &mut Report, rng: &mut Rng) {
-    let n = rep.budget(2_500, 10);
+    let n = rep.budget(8_000, 10);
     let mut pairs = vec![];
     for _ in 0..n {
         let glob = gen_raw_glob(rng);
@@ -731,7 +731,7 @@ fn raw_stream(rep: &mut Report, rng: &mut Rng) {
 
 /// a well-formed pattern with one known defect is refused with the kind of that defect
 fn malformed_stream(rep: &mut Report, rng: &mut Rng) {
-    let n = rep.budget(600, 10);
+    let n = rep.budget(1_500, 10);
     let mut stats = BTreeMap::new();
     let mut reqs = vec![];
     let mut outs = vec![];
@@ -769,7 +769,7 @@ fn gen_any_glob(rng: &mut Rng, stats: &mut BTreeMap<String, u64>) -> String {
 
 /// sets of several patterns, built the way `to_globset` builds them
 fn set_stream(rep: &mut Report, rng: &mut Rng) {
-    let n = rep.budget(1_200, 10);
+    let n = rep.budget(4_000, 10);
     let mut stats = BTreeMap::new();
     let mut reqs = vec![];
     let mut outs = vec![];
@@ -886,8 +886,8 @@ fn generalise(rng: &mut Rng, path: &str, stats: &mut BTreeMap<String, u64>) -> S
 
 fn rewrite_stream(rep: &mut Report, rng: &mut Rng) {
     let base = rep.workdir.join("fsglob");
-    let n_trees = rep.budget(2, 3);
-    let per_tree = rep.budget(160, 6) / n_trees.max(1) * 2 / 2;
+    let n_trees = rep.budget(3, 3);
+    let per_tree = rep.budget(600, 6) / n_trees.max(1);
     for ti in 0..n_trees {
         let t = build_tree(rng, &base, 700 + ti);
         std::env::set_current_dir(&t.cw).unwrap();
@@ -981,8 +981,14 @@ fn rewrite_stream(rep: &mut Report, rng: &mut Rng) {
 /// the binary with a pattern that does not parse: the main thread panics in `to_globset`
 /// (exit code 101), after the inputs were read, and no report is written
 fn cli_stream(rep: &mut Report, rng: &mut Rng) {
-    use corrlib::pipe::{run_grcov, RunCfg};
-    let n = rep.budget(3, 2);
+    use corrlib::pipe::{grcov_bin, run_grcov, RunCfg};
+    if !grcov_bin().exists() {
+        // `check` builds the binary only for the properties of its NEED_BIN list (C11 is not one)
+        rep.count("glob.cli.skipped_binary_not_built");
+        rep.notes.push("part Glob: the CLI runs with a pattern that does not parse were skipped (no grcov binary in harness/target-grcov; it is built by `./check` of C02/C03/C05/…); the library-level tie of the same `unwrap` ran".into());
+        return;
+    }
+    let n = rep.budget(4, 2);
     let mut stats = BTreeMap::new();
     for c in 0..n {
         let root = rep.workdir.join(format!("globcli{}", c));
